@@ -13986,7 +13986,8 @@ def _expand_to_match_shape(
     else:
         # tensordict
         batch_size = torch.Size([*parent_batch_size, *_shape(data)[self_batch_dims:]])
-        result = data.empty(batch_size=batch_size)
+        # the new node lives in the indexed tensordict: its device, not the value's
+        result = data.empty(batch_size=batch_size, device=self_device)
     return result
 
 
